@@ -272,7 +272,10 @@ inductive Req
   | disable
   | advance (ms : Nat)
   /-- the port is removed and created again under the same id with another definition (DELETE + POST /ports, or a
-  backup restore by PUT /ports); the tasks of the old port are gone with it -/
+  backup restore by PUT /ports); the tasks of the old port are gone with it.  Also stands for a port with driver-computed
+  attributes (`attr_get_step`, `attr_is_writable`, …) whose newly declared attributes come into force — the pass of
+  `core.main.update()` that drops `BasePort._attrs_cache` — while no sequence is installed (`pend = []`): then only `d`
+  changes -/
   | redefine (d : PortDef)
 
 def isReject : Resp → Bool
